@@ -74,7 +74,10 @@ GenStep(t, m, st, i, old) ==
      ELSE LET flushfirst == ~old /\ Aligned(t, m) /\ Off(t, m, i) = None                      \* dynamic offsets: one field per block
               seekfirst == ~old /\ ~flushfirst /\ Len(st.block) = 0 /\ Off(t, m, i) # None /\ Off(t, m, i) # st.cur
               ops1 == (IF flushfirst THEN FlushOps(t, m, st.block) ELSE << >>) \o (IF seekfirst THEN << Seek(Off(t, m, i)) >> ELSE << >>)
-              cur1 == IF seekfirst THEN Off(t, m, i) ELSE st.cur
+              \* a gap inside the block is padded when the block is generated; the tracked offset follows it (layouts of the
+              \* specification have no offsets that go backwards - those come from add_field(offset=) only, finding F46)
+              gap == ~old /\ ~seekfirst /\ Off(t, m, i) # None /\ st.cur # None /\ Off(t, m, i) > st.cur
+              cur1 == IF seekfirst \/ gap THEN Off(t, m, i) ELSE st.cur
           IN [st EXCEPT !.plan = @ \o ops0 \o ops1, !.block = (IF flushfirst THEN << >> ELSE st.block) \o << i >>,
                         !.pwb = pwb0, !.br = br0, !.cur = IF cur1 # None /\ size # Dyn THEN cur1 + size ELSE cur1]
 GenFinish(t, m, st) == st.plan \o FlushOps(t, m, st.block) \o (IF Aligned(t, m) THEN << [op |-> "tailalign", a |-> 0, items |-> << >>, i |-> 0] >> ELSE << >>)
